@@ -426,7 +426,10 @@ class printcore():
         self.mainqueue = gcode
         self.printing = True
         self.resendfrom = -1
-        self.clear = False
+        # Wait for the line number reset to be acknowledged, but only
+        # if it is sent (GRBL does not support it, so nothing would
+        # ever set the clear flag again)
+        self.clear = not self._send_line_numbers
         self._reset_line_numbers()
 
         resuming = (startindex != 0)
